@@ -1607,8 +1607,11 @@ func checkC15PKPlaceholder(c *Ctx) {
 // Assign goes through it), the row is identified by ALL primary fields.  Decided: in ConvertToAssignments every
 // WHERE equality whose column is `<field>.DBName` takes <field> from a range over Schema.PrimaryFields.
 func checkC16KeyAll(c *Ctx) {
+	checkKeyAll(c, c.Rule("C16.key-all", "ConvertToAssignments pins an update to the model's row through every primary field", 1))
+}
+
+func checkKeyAll(c *Ctx, r *Rule) {
 	p := c.P
-	r := c.Rule("C16.key-all", "ConvertToAssignments pins an update to the model's row through every primary field", 1)
 	f := p.FuncDecl(pkgCallbacks, "ConvertToAssignments")
 	c.Touch(f)
 	info := f.Pkg.TypesInfo
@@ -1863,4 +1866,399 @@ func checkC03LookupOrder(c *Ctx) {
 	nameFirst := gs.Reaches(nameIx.Pos(), func(n ast.Node) bool { return containsNode(n, dbIx) })
 	dbFirst := gs.Reaches(dbIx.Pos(), func(n ast.Node) bool { return containsNode(n, nameIx) })
 	r.Check(dbFirst && !nameFirst, f.Name(), "column names before Go names", nameIx.Pos(), "FieldsByDBName is consulted first", "LookUpField tries the Go field names before the column names: a result column whose name equals another field's Go name is scanned into that other field (Create stored it by column name)")
+}
+
+// C08.join-filter-group (finding F14): an association Join merges the joined model's query clauses (the
+// soft-delete filter) and the caller's ON conditions (Joins("Rel", db.Where(a).Or(b))) into ONE where clause of
+// a scratch statement.  The filter has to restrict the caller's conditions as a whole.  The soft-delete
+// modifier regroups lone-OR conditions it FINDS when it is applied - so the caller's conditions must be in the
+// scratch statement before the query clauses are added (or be added as one grouped unit).  Decided on the CFG of
+// the join closure: the AddClause of the caller's On is not reachable from the loop that adds QueryClauses.
+func checkC08JoinFilterGroup(c *Ctx) {
+	p := c.P
+	r := c.Rule("C08.join-filter-group", "association Joins: the caller's ON conditions are in the scratch statement before the joined model's query clauses are applied (so the soft-delete filter binds to them as a whole)", 1)
+	root := p.FuncDecl(pkgCallbacks, "BuildQuerySQL")
+	qcF := p.Field(p.Named(pkgSchema, "Schema"), "QueryClauses")
+	addClause := p.Method(p.Named(pkgGorm, "Statement"), "AddClause")
+	n := 0
+	for _, f := range append([]*FuncSrc{root}, p.AllLits(root)...) {
+		info := f.Pkg.TypesInfo
+		var loops []*ast.RangeStmt
+		ast.Inspect(f.Body, func(x ast.Node) bool {
+			if fl, ok := x.(*ast.FuncLit); ok && fl != f.Lit {
+				return false
+			}
+			if rs, ok := x.(*ast.RangeStmt); ok && fieldSel(info, rs.X, qcF) {
+				loops = append(loops, rs)
+			}
+			return true
+		})
+		for _, loop := range loops {
+			// receiver the clauses are added to
+			recv := ""
+			ast.Inspect(loop.Body, func(x ast.Node) bool {
+				if ce, ok := x.(*ast.CallExpr); ok {
+					if fn, _ := typeutil.Callee(info, ce).(*types.Func); fn == addClause {
+						recv = canon(info, ce.Fun.(*ast.SelectorExpr).X)
+					}
+				}
+				return true
+			})
+			if recv == "" {
+				continue
+			}
+			// AddClause(<x>.On) on the same receiver
+			for _, call := range callsIn(f) {
+				fn, _ := typeutil.Callee(info, call).(*types.Func)
+				if fn != addClause || len(call.Args) != 1 || canon(info, call.Fun.(*ast.SelectorExpr).X) != recv {
+					continue
+				}
+				if loop.Body.Pos() <= call.Pos() && call.End() <= loop.Body.End() {
+					continue
+				}
+				arg := unparen(call.Args[0])
+				grouped := false
+				ast.Inspect(arg, func(x ast.Node) bool {
+					if ce, ok := x.(*ast.CallExpr); ok {
+						if g, _ := typeutil.Callee(info, ce).(*types.Func); g != nil && g.Name() == "And" && g.Pkg() != nil && g.Pkg().Path() == pkgClause && ce.Ellipsis.IsValid() {
+							grouped = true
+						}
+					}
+					return true
+				})
+				if !strings.HasSuffix(canon(info, arg), ".On") && !grouped {
+					continue
+				}
+				n++
+				c.Touch(f)
+				gs := p.Guards(f, nil)
+				after := gs.Reaches(loop.X.Pos(), func(nd ast.Node) bool { return containsNode(nd, call) })
+				r.Check(grouped || !after, f.Name(), "caller's ON conditions vs query clauses", call.Pos(), "added before the query clauses (or as one grouped unit)", "the caller's ON conditions are merged into the scratch statement AFTER the joined model's query clauses: the soft-delete filter was already added (its regrouping of OR conditions saw nothing), and `deleted_at IS NULL AND a OR b` joins soft-deleted rows matching `b`")
+			}
+		}
+	}
+	if n == 0 {
+		r.Bad(root.Name(), "join ON conditions", root.Body.Pos(), "no association-join site merging query clauses and caller conditions found; rule lost its anchor")
+	}
+}
+
+// checkFilterOnce (C09.marker): the missing-WHERE guard discounts ONE automatic soft-delete expression when the
+// statement-wide marker is present.  The modifier must therefore add its filter only when that very marker is
+// absent (a per-column or otherwise different guard key lets a second filter in, and a chain without any user
+// condition passes the guard).
+func checkFilterOnce(c *Ctx, r *Rule) {
+	p := c.P
+	sdq := p.MethodDecl(pkgGorm, "SoftDeleteQueryClause", "ModifyStatement")
+	info := sdq.Pkg.TypesInfo
+	stmtT := p.Named(pkgGorm, "Statement")
+	addClause := p.Method(stmtT, "AddClause")
+	whereT := p.Named(pkgClause, "Where")
+	clausesF := p.Field(stmtT, "Clauses")
+	var filter *ast.CallExpr
+	for _, call := range callsIn(sdq) {
+		if fn, _ := typeutil.Callee(info, call).(*types.Func); fn == addClause && len(call.Args) == 1 {
+			if lit, ok := unparen(call.Args[0]).(*ast.CompositeLit); ok {
+				if tv, ok := info.Types[lit]; ok && types.Identical(tv.Type, whereT) {
+					filter = call
+				}
+			}
+		}
+	}
+	if filter == nil {
+		r.Bad(sdq.Name(), "filter", sdq.Body.Pos(), "the soft-delete query modifier adds no WHERE filter")
+		return
+	}
+	// the marker the guard reads
+	guardKeys := map[string]bool{}
+	for _, g := range missingWhereGuards(p) {
+		ginfo := g.Pkg.TypesInfo
+		ast.Inspect(g.Body, func(n ast.Node) bool {
+			if ix, ok := n.(*ast.IndexExpr); ok && fieldSel(ginfo, ix.X, clausesF) {
+				if k, ok := constString(ginfo, ix.Index); ok && k != "WHERE" {
+					guardKeys[k] = true
+				}
+			}
+			return true
+		})
+	}
+	facts, live := p.Guards(sdq, nil).At(filter.Pos())
+	okOnce := false
+	var keys []string
+	for k := range guardKeys {
+		keys = append(keys, k)
+		if localFact(sdq, facts, false, filter.Pos(), defIsMapLookupOK(clausesF, k)) {
+			okOnce = true
+		}
+	}
+	sort.Strings(keys)
+	r.Check(live && okOnce && len(keys) > 0, sdq.Name(), "filter only when the guard's marker is absent", filter.Pos(), "marker "+strings.Join(keys, ",")+" tested", "the soft-delete filter is added without testing the marker the missing-WHERE guard discounts by ("+strings.Join(keys, ",")+"): a second automatic filter (e.g. one per soft-delete column) makes a chain without any user condition look conditioned, and a global update runs")
+}
+
+// C13.batch-error: FindInBatches runs Find (and with it the AfterFind hooks and preloads) once per batch; whatever
+// error that Find reports - with or without rows loaded - must stop the batches and be returned.  Decided by path
+// enumeration of FindInBatches: on every path through the batch query, either its Error is recorded on the
+// operation's handle (AddError(result.Error)) or the path has established that it is nil.
+func checkC13BatchError(c *Ctx) {
+	p := c.P
+	r := c.Rule("C13.batch-error", "FindInBatches records the error of every batch query (hook errors included) unless the path established that it is nil", 1)
+	f := p.MethodDecl(pkgGorm, "DB", "FindInBatches")
+	c.Touch(f)
+	info := f.Pkg.TypesInfo
+	dbT := p.Named(pkgGorm, "DB")
+	findM := p.Method(dbT, "Find")
+	errF := p.Field(dbT, "Error")
+	// result := <chain>.Find(dest)
+	var q *ast.AssignStmt
+	var res types.Object
+	ast.Inspect(f.Body, func(n ast.Node) bool {
+		as, ok := n.(*ast.AssignStmt)
+		if !ok || len(as.Lhs) != 1 || len(as.Rhs) != 1 {
+			return true
+		}
+		if ce, ok := unparen(as.Rhs[0]).(*ast.CallExpr); ok {
+			if fn, _ := typeutil.Callee(info, ce).(*types.Func); fn == findM {
+				if id, ok := as.Lhs[0].(*ast.Ident); ok {
+					q, res = as, info.ObjectOf(id)
+				}
+			}
+		}
+		return true
+	})
+	if q == nil {
+		r.Bad(f.Name(), "batch query", f.Body.Pos(), "FindInBatches no longer keeps the result of its batch query; rule lost its anchor")
+		return
+	}
+	isResErr := func(e ast.Expr) bool {
+		sel, ok := unparen(e).(*ast.SelectorExpr)
+		if !ok || !fieldSel(info, sel, errF) {
+			return false
+		}
+		id, ok := unparen(sel.X).(*ast.Ident)
+		return ok && info.ObjectOf(id) == res
+	}
+	resName := res.Name()
+	paths, ok := p.EnumPaths(f, nil, 50000)
+	if !ok {
+		r.Unknown(f.Name(), "paths", f.Body.Pos(), "too many paths")
+		return
+	}
+	bad, seen := 0, 0
+	var where token.Pos = q.Pos()
+	for _, pr := range paths {
+		at := -1
+		for i, nd := range pr.Nodes {
+			if nd == ast.Node(q) || containsNode(nd, q) {
+				at = i
+			}
+		}
+		if at < 0 {
+			continue
+		}
+		seen++
+		okp := false
+		for i := at + 1; i < len(pr.Nodes) && !okp; i++ {
+			ast.Inspect(pr.Nodes[i], func(x ast.Node) bool {
+				if ce, ok := x.(*ast.CallExpr); ok && len(ce.Args) == 1 && isResErr(ce.Args[0]) {
+					if fn, _ := typeutil.Callee(info, ce).(*types.Func); fn != nil && fn.Name() == "AddError" {
+						okp = true
+					}
+				}
+				return true
+			})
+		}
+		nilKnown := func(fs factSet) bool {
+			return fs.Has("T:"+resName+".Error == nil") || fs.Has("F:"+resName+".Error != nil") || fs.Has("N:"+resName+".Error")
+		}
+		if !okp {
+			if nilKnown(pr.Facts) {
+				okp = true
+			}
+			for i := at + 1; i < len(pr.Before) && !okp; i++ {
+				if nilKnown(pr.Before[i]) {
+					okp = true
+				}
+			}
+		}
+		if !okp {
+			bad++
+			where = pr.Exit
+		}
+	}
+	r.Check(bad == 0 && seen > 0, f.Name(), "error of the batch query", where, "recorded or known to be nil on every path", "FindInBatches has a path on which the batch query's Error is neither recorded nor known to be nil: an AfterFind hook (or preload) error of a batch that loaded rows is dropped, later batches keep running and nil is returned")
+}
+
+// C12.key-partners: association mode finds the rows to detach / keep by comparing join or foreign-key COLUMNS with
+// key VALUES extracted from records.  Where the column-name list is built locally from the relation's references
+// (joinPrimaryKeys, joinRelPrimaryKeys, foreignKeys ...), the values must be extracted through the field list built
+// next to it from the same references - its partner - and not through some schema-wide list (which differs as soon
+// as a relation references a non-primary column).  Decided for every ToQueryValues(table, NAMES, V) in the methods
+// of Association where NAMES is a local list: V comes from GetIdentityFieldValuesMap[FromValues](.., FIELDS) with
+// FIELDS a local list appended in the same block as NAMES at least once.
+func checkC12KeyPartners(c *Ctx) {
+	p := c.P
+	r := c.Rule("C12.key-partners", "association mode: a locally built column-name list is paired with the field list built next to it from the same references", 4)
+	assocT := p.Named(pkgGorm, "Association")
+	tqv := p.FuncDecl(pkgSchema, "ToQueryValues").Obj
+	gif := p.FuncDecl(pkgSchema, "GetIdentityFieldValuesMap").Obj
+	gifv := p.FuncDecl(pkgSchema, "GetIdentityFieldValuesMapFromValues").Obj
+	for i := 0; i < assocT.NumMethods(); i++ {
+		f := p.SrcOpt(assocT.Method(i))
+		if f == nil {
+			continue
+		}
+		info := f.Pkg.TypesInfo
+		// blocks in which a local list is appended
+		appendBlocks := map[types.Object]map[ast.Node]bool{}
+		parents := parentMap(f.Body)
+		ast.Inspect(f.Body, func(n ast.Node) bool {
+			as, ok := n.(*ast.AssignStmt)
+			if !ok || len(as.Lhs) != 1 || len(as.Rhs) != 1 {
+				return true
+			}
+			id, ok := unparen(as.Lhs[0]).(*ast.Ident)
+			if !ok {
+				return true
+			}
+			if ce, ok := unparen(as.Rhs[0]).(*ast.CallExpr); ok {
+				if fid, ok := ce.Fun.(*ast.Ident); ok && fid.Name == "append" {
+					o := info.ObjectOf(id)
+					if appendBlocks[o] == nil {
+						appendBlocks[o] = map[ast.Node]bool{}
+					}
+					appendBlocks[o][parents[as]] = true
+				}
+			}
+			return true
+		})
+		for _, call := range callsIn(f) {
+			if fn, _ := typeutil.Callee(info, call).(*types.Func); fn != tqv || len(call.Args) != 3 {
+				continue
+			}
+			nid, ok := unparen(call.Args[1]).(*ast.Ident)
+			if !ok || appendBlocks[info.ObjectOf(nid)] == nil {
+				continue // a schema-wide name list
+			}
+			vid, ok := unparen(call.Args[2]).(*ast.Ident)
+			if !ok {
+				continue
+			}
+			c.Touch(f)
+			// definition of the values
+			var fields ast.Expr
+			vobj := info.ObjectOf(vid)
+			ast.Inspect(f.Body, func(n ast.Node) bool {
+				as, ok := n.(*ast.AssignStmt)
+				if !ok || len(as.Rhs) != 1 || len(as.Lhs) != 2 {
+					return true
+				}
+				lid, ok := as.Lhs[1].(*ast.Ident)
+				if !ok || info.ObjectOf(lid) != vobj || as.Pos() > call.Pos() {
+					return true
+				}
+				if ce, ok := unparen(as.Rhs[0]).(*ast.CallExpr); ok && len(ce.Args) == 3 {
+					if fn, _ := typeutil.Callee(info, ce).(*types.Func); fn == gif || fn == gifv {
+						fields = ce.Args[2]
+					}
+				}
+				return true
+			})
+			if fields == nil {
+				r.Unknown(f.Name(), "values of "+nid.Name, call.Pos(), "cannot find where the compared values are extracted")
+				continue
+			}
+			okp := false
+			if fid, ok := unparen(fields).(*ast.Ident); ok {
+				for blk := range appendBlocks[info.ObjectOf(fid)] {
+					if appendBlocks[info.ObjectOf(nid)][blk] {
+						okp = true
+					}
+				}
+			}
+			r.Check(okp, f.Name(), "columns "+nid.Name+" compared with values of "+exprShort(fields), call.Pos(), "partner lists built from the same references", "the column list "+nid.Name+" (built from the relation's references) is compared with values extracted through "+exprShort(fields)+", which is not the field list built next to it: with a relation that references a non-primary column the wrong values are compared - Replace detaches the rows it has just linked")
+		}
+	}
+}
+
+// C11.all-parents: a loaded row is attached to EVERY parent filed under its key (the same parent row can occur more
+// than once in the destination slice, several parents can share a belongs-to target).  Decided in callbacks.preload:
+// the list looked up in the identity map is ranged over as looked up - its variable has no other definition (no
+// re-slicing, filtering or truncation between the look-up and the attaching loop) - and every iteration of that
+// loop sets the relation field (no continue / break before the Set).
+func checkC11AllParents(c *Ctx) {
+	p := c.P
+	r := c.Rule("C11.all-parents", "preload attaches a loaded row to every parent filed under its key: the looked-up list is ranged over unchanged", 1)
+	f := p.FuncDecl(pkgCallbacks, "preload")
+	c.Touch(f)
+	info := f.Pkg.TypesInfo
+	n := 0
+	ast.Inspect(f.Body, func(x ast.Node) bool {
+		as, ok := x.(*ast.AssignStmt)
+		if !ok || len(as.Lhs) != 2 || len(as.Rhs) != 1 {
+			return true
+		}
+		ix, ok := unparen(as.Rhs[0]).(*ast.IndexExpr)
+		if !ok {
+			return true
+		}
+		mt, ok := info.TypeOf(ix.X).Underlying().(*types.Map)
+		if !ok || mt.Elem().String() != "[]reflect.Value" {
+			return true
+		}
+		id, ok := as.Lhs[0].(*ast.Ident)
+		if !ok {
+			return true
+		}
+		obj := info.ObjectOf(id)
+		n++
+		// other definitions of the list
+		defs := 0
+		var loop *ast.RangeStmt
+		ast.Inspect(f.Body, func(y ast.Node) bool {
+			switch z := y.(type) {
+			case *ast.AssignStmt:
+				for _, l := range z.Lhs {
+					if lid, ok := unparen(l).(*ast.Ident); ok && info.ObjectOf(lid) == obj {
+						defs++
+					}
+				}
+			case *ast.RangeStmt:
+				if rid, ok := unparen(z.X).(*ast.Ident); ok && info.ObjectOf(rid) == obj {
+					loop = z
+				}
+			}
+			return true
+		})
+		okLoop := loop != nil
+		if loop == nil {
+			// the list handed on as a whole: append(dst, list...)
+			ast.Inspect(f.Body, func(y ast.Node) bool {
+				if ce, ok := y.(*ast.CallExpr); ok && ce.Ellipsis.IsValid() && len(ce.Args) > 0 {
+					if lid, ok := unparen(ce.Args[len(ce.Args)-1]).(*ast.Ident); ok && info.ObjectOf(lid) == obj {
+						okLoop = true
+					}
+				}
+				return true
+			})
+		}
+		if loop != nil {
+			ast.Inspect(loop.Body, func(y ast.Node) bool {
+				if _, ok := y.(*ast.FuncLit); ok {
+					return false
+				}
+				if br, ok := y.(*ast.BranchStmt); ok && (br.Tok == token.CONTINUE || br.Tok == token.BREAK) {
+					// a break inside an inner switch/select/for belongs to that statement
+					if br.Tok == token.BREAK {
+						return true
+					}
+					okLoop = false
+				}
+				return true
+			})
+		}
+		r.Check(defs == 1 && okLoop, f.Name(), "parents filed under the row's key", as.Pos(), "ranged over as looked up", "the list of parents looked up for a loaded row is redefined (re-sliced / filtered / truncated) before it is ranged over, or the attaching loop skips elements: a parent occurring more than once in the destination - or several parents sharing one target - does not get its row")
+		return true
+	})
+	if n == 0 {
+		r.Bad(f.Name(), "parent look-up", f.Body.Pos(), "preload no longer looks the parents of a loaded row up in an identity map; rule lost its anchor")
+	}
 }
